@@ -147,7 +147,10 @@ def hash_sweep(task):
 SECRETS = [b"", b"a", b"password", b"\xe9\xff", b"\xff\xfe\x80", "é€😀".encode(), b"x" * 7, b"x" * 8, b"y" * 9, b"Z" * 15 + b"!",
            b"k" * 55, b"k" * 56, b"m" * 63, b"m" * 64, b"m" * 65, b"n" * 127, b"n" * 128, b"n" * 129,   # digest block/padding boundaries
            b"0123456789" * 7 + b"AB", b"0123456789" * 7 + b"ABC", b"q" * 96, b"r" * 97, bytes(range(1, 128)), b"s" * 255,
-           (b"0123456789" * 26)[:255], b"t" * 256, bytes(range(1, 256)) * 2]
+           (b"0123456789" * 26)[:255], b"t" * 256, bytes(range(1, 256)) * 2,
+           # valid UTF-8 text whose multi-byte characters straddle the boundaries backends cut at (8, 72 bytes)
+           ("a" * 71 + "\xe9z").encode(), ("b" * 70 + "\u20acxyz").encode(), ("c" * 7 + "\xe9" + "d" * 20).encode(), ("\u043f\u0430\u0440\u043e\u043b\u044c" * 7).encode(),
+           ("e" * 69 + "\U0001F600" + "tail").encode(), ("f" * 100 + "\xe9" * 10).encode(), ("g" * 15 + "\xe9" + "h" * 112).encode()]
 
 
 def key_sweep(fam, rnd, quick):
@@ -182,9 +185,10 @@ def key_sweep(fam, rnd, quick):
         cfgs = ["$scrypt$ln=1,r=1,p=1$c2FsdA$", "$scrypt$ln=2,r=2,p=1$$", "$scrypt$ln=3,r=1,p=2$" + "QUJD" * 8 + "$",
                 "$scrypt$ln=4,r=8,p=1$c2FsdHNhbHQ$", "$7$0/..../....c2FsdA$"]
     cfgs = [pre + c for c in cfgs]
-    secrets = SECRETS if not quick else SECRETS[:20] + SECRETS[21:23]
+    straddle = SECRETS[-7:]            # multi-byte characters across the cut points
+    secrets = SECRETS if not quick else SECRETS[:20] + SECRETS[21:23] + straddle[2:4] + straddle[6:]
     if fam in ("bcrypt", "ldap_bcrypt", "django_bcrypt", "bcrypt_sha256", "django_bcrypt_sha256") and quick:
-        secrets = SECRETS[:10] + [SECRETS[13], SECRETS[18], SECRETS[19], SECRETS[24]]
+        secrets = SECRETS[:10] + [SECRETS[13], SECRETS[18], SECRETS[19], SECRETS[24]] + straddle[:2] + straddle[3:5]
     keys = [(f"{fam}|{CONFIGS[fam]}|first-use", b"pw".hex(), CONFIGS[fam])]
     for ci, cfg in enumerate(cfgs):
         for si, s in enumerate(secrets):
